@@ -22,7 +22,8 @@ RULE = ('(histories) M-broker rule-based machine restricted to portfolio creatio
         'fills later and a boundary instant (14:30:00, 21:00:00 or a weekend) occurs; sweep cases within 2 minutes '
         'of a boundary or on a weekend.'
         ' Round-5 reach: the same Order object may be submitted again (to the same or another portfolio: one more acceptance, one more fill; submissions are counted per order id) and orders may be submitted while their asset has no quote (nobody holds or awaits it; quoted again before the next update).'
-        " Round-11 reach: a refused duplicate create_portfolio in between; rule swap_and_fill (one asset closed and another opened by the same update).")
+        " Round-11 reach: a refused duplicate create_portfolio in between; rule swap_and_fill (one asset closed and another opened by the same update)."
+        " Round-12 reach: list_all_portfolios() among the read-only queries in between.")
 ASSUMPTIONS = [
     'every ordered asset has a quote at the fill time (the statement\'s precondition)',
     'ordering across different portfolios inside one update is not asserted (not observable, not stated)',
